@@ -308,6 +308,53 @@ def run(ctx):
                         'the handler that maps a missing object to NoSuchRecording receives an exception re-wrapped on the way (%s): it '
                         'recognises the storage layer\'s own exception type, so the mapping is lost' % src)
 
+    # "no such recording" is the storage's answer: the fetch routines raise it where the store was asked (a membership / existence test on
+    # what save writes, the handler of the storage call) - never from a look at the id text alone, since save stores a recording under
+    # whatever id it carries
+    from .common import guards_of as _guards7
+    for c in (mem, fil, s3):
+        sv_c = F(c, '_save_recording')
+        store_fields = {self_attr(x) for x in ast.walk(sv_c.node) if isinstance(x, ast.Attribute) and self_attr(x)} - {None}
+        # fields the class's path / key helpers read count as well (the directory, the key prefix): they are part of where save wrote
+        for mname in ('get_recording',) + (('get_recording_metadata',) if c is s3 else ()):
+            g = F(c, mname)
+            fns = [g] + [c.lookup(self_attr(x.func)) for x in ast.walk(g.node) if isinstance(x, ast.Call) and self_attr(x.func) and
+                         c.lookup(self_attr(x.func)) is not None and self_attr(x.func).startswith('_') and c.lookup(self_attr(x.func)) is not g]
+            unasked = []
+            for fn_ in fns:
+                local_defs = {n.targets[0].id: n.value for n in walk_own(fn_.node) if isinstance(n, ast.Assign) and len(n.targets) == 1 and isinstance(n.targets[0], ast.Name)}
+                for st_, conds in _guards7(fn_.node, lambda x: isinstance(x, ast.Raise) and x.exc is not None and 'NoSuchRecording' in norm(x.exc)):
+                    def asks_store(t_, depth=0):
+                        if isinstance(t_, ast.Name) and t_.id.startswith('<handler'):
+                            return True
+                        for x in ast.walk(t_):
+                            if isinstance(x, ast.Attribute) and self_attr(x) in store_fields:
+                                return True
+                            if isinstance(x, ast.Call) and norm(x.func).startswith(('os.path.', 'os.access', 'os.stat')):
+                                return True
+                            if isinstance(x, ast.Name) and x.id in local_defs and depth < 3 and asks_store(local_defs[x.id], depth + 1):
+                                return True
+                        return False
+                    if not any(asks_store(t_) for t_, _p in conds):
+                        unasked.append((fn_, st_, conds))
+            cd.instance('%s.%s: NoSuchRecording is raised only where the store was asked' % (c.name, mname), g.qualname, not unasked)
+            cd.evaluations += 1
+            for fn_, st_, conds in unasked[:1]:
+                finding('C07.d', 'R-SIBLING', fn_, norm(st_)[:80],
+                        '%s raises NoSuchRecording %s without asking the store: save keeps a recording under whatever id it carries, so a recording that '
+                        'was saved is reported as missing when its id does not pass this test' % (
+                            fn_.qualname, ('when `%s`' % ' and '.join(('' if p_ else 'not ') + norm(t_)[:50] for t_, p_ in conds)) if conds else 'unconditionally'), st_.lineno)
+    # the local file system answers "not there" in more than one way (ENOENT, ENOTDIR, ENAMETOOLONG, EISDIR ...): a fetch that maps open()
+    # failures by errno lets the others through as IOError for ids that were never saved
+    g_f = F(fil, 'get_recording')
+    by_errno = [h for t_ in ast.walk(g_f.node) if isinstance(t_, ast.Try) for h in t_.handlers
+                if any(isinstance(x, ast.Raise) and x.exc is not None and 'NoSuchRecording' in norm(x.exc) for x in ast.walk(h)) and
+                any(isinstance(x, ast.Attribute) and x.attr in ('errno', 'winerror') for x in ast.walk(h))]
+    cd.instance('file cassette: a missing recording is not recognised by errno', g_f.qualname, not by_errno)
+    for h in by_errno[:1]:
+        finding('C07.d', 'R-SIBLING', g_f, 'except %s: errno filter' % (norm(h.type) if h.type is not None else ''),
+                'the file cassette maps a failed open() to NoSuchRecording only for selected errno values: an id that was never saved and whose path cannot '
+                'be opened for another reason (name too long, a directory, a file in place of a directory) raises IOError instead', h.lineno)
     # ---------------- C07.e
     sv_m = F(mem, '_save_recording')
     stores = [n for n in walk_own(sv_m.node) if isinstance(n, ast.Assign) and isinstance(n.targets[0], ast.Subscript) and self_attr(n.targets[0].value)]
